@@ -23,6 +23,7 @@
 #include <assert.h>
 #include <ctype.h>
 #include <errno.h>
+#include <limits.h>
 #include <stdarg.h>
 #include <stdbool.h>
 #include <stdlib.h>
@@ -293,8 +294,14 @@ static int is_in_word_char(int ch)
 static bool convert_int(ts_parser_state_t *tpsp)
 {
     char *end;
+    long value;
 
-    tpsp->u.tps_int = strtol(tpsp->tps_text, &end, 0);
+    errno = 0;
+    value = strtol(tpsp->tps_text, &end, 0);
+    if (errno != 0 || value < INT_MIN || value > INT_MAX) {
+	return false;
+    }
+    tpsp->u.tps_int = (int)value;
     return end > tpsp->tps_text && *end == '\000';
 }
 
